@@ -252,23 +252,21 @@ def check(run):
         deleg = [c for c in f.calls() if (q.callee_name(c) or '') == S + '::' + fname.split('::')[-1]]
         is_err = lambda g_, c: (c.get('callee') or '').endswith('error_code::assign') and 'address_not_available' in q.render(g_, c)
         sites = [c for c in f.calls() if is_err(f, c)]
-        ok = len(sites) >= 3 and all(not any(f.cfg._reaches(f.cfg.node_block(s), f.cfg.node_block(d)) for d in deleg) for s in sites)
-        if not sites:
-            # the address selection may have been extracted into a helper that assigns the error and reports it through a
-            # boolean result: the helper returns one constant after every assignment and the other on every clean path,
-            # and the caller reaches simulation::bind only under the clean value
-            for hc, h in q._helpers(f, 1, ()):
-                hs = [c for c in h.calls() if is_err(h, c)]
-                if len(hs) < 3:
-                    continue
-                rets = [r for r in q.returns(h) if r.get('e') is not None]
-                after = {q.strip_casts(r['e']).get('v') for r in rets if any(h.cfg._reaches(h.cfg.node_block(s), h.cfg.node_block(r)) or h.cfg.node_block(s) == h.cfg.node_block(r) for s in hs)}
-                clean = {q.strip_casts(r['e']).get('v') for r in rets if h.cfg.node_block(r) in (h.cfg.reach_from(h.cfg.entry, avoid={h.cfg.node_block(s) for s in hs}) | {h.cfg.entry})}
-                if not after or not clean or (after & clean) or not all(isinstance(v, bool) for v in after | clean) or len(clean) != 1:
-                    continue
-                want = list(clean)[0]
-                ok = bool(deleg) and all(any(q.strip_casts(a) is hc and p_ == want for a, p_ in q.guards_at(f, d)) for d in deleg)
-                sites = hs
+        def reaches_registry(s_):
+            """can control go from the error assignment to simulation::bind?  When the assignment sits in a helper spliced into
+            this view and every way out of the helper from there returns the same boolean constant, the branch on the helper's
+            result is followed along that value only (`if (!pick_local_address(...)) return ...;`)."""
+            hc = next((a_ for a_ in f.ancestors(s_) if a_['k'] == 'call' and a_.get('inlined') and is_node(a_.get('inl'))), None)
+            leaf = lambda atom: None
+            if hc is not None:
+                irs = [x for x in walk(hc['inl']) if x['k'] == 'ireturn' and x.get('e') is not None and
+                       (f.cfg.node_block(x) == f.cfg.node_block(s_) or f.cfg._reaches(f.cfg.node_block(s_), f.cfg.node_block(x)))]
+                vals = {q.strip_casts(x['e']).get('v') for x in irs if q.strip_casts(x['e']).get('k') == 'bool'}
+                if irs and len(vals) == 1 and len(irs) == len([x for x in irs if q.strip_casts(x['e']).get('k') == 'bool']):
+                    v_ = list(vals)[0]
+                    leaf = lambda atom, v_=v_, hc=hc: v_ if q.strip_casts(atom) is hc else None
+            return q.reachable_under(f, s_, deleg, leaf)
+        ok = len(sites) >= 3 and not any(reaches_registry(s_) for s_ in sites)
         run.check(ok and bool(deleg), 'R4', 'error-does-not-register', '%s: address_not_available' % fname, f.loc(), 'address_not_available paths can still reach the registry', '3 paths assign it and none reaches simulation::bind')
     for cls in (T, U):
         f = fx.fn(cls + '::bind', None)
